@@ -118,3 +118,19 @@ typedef int qtable;
 static inline qoptsub opt_some(qsub v) { return v == 0 ? 1 : v; }
 /* QTextStream(QString *, mode): a stream that writes into the string */
 static inline qtextstream qtextstream_open(qstr *s, int mode) { (void)mode; return s; }
+
+static inline void qlist_clear(qlist *l) { *l = 0; }
+/* iterChildElements(parent, tag, ns): abstract sequence of the matching child elements */
+typedef struct qdomkids { qdom parent; qstr tag; qstr ns; } qdomkids;
+unsigned __CPROVER_uninterpreted_dom_kids_count(qdom parent, qstr tag, qstr ns);
+qdom __CPROVER_uninterpreted_dom_kid(qdom parent, qstr tag, qstr ns, int i);
+static inline qdomkids qdomkids_of(qdom parent, qstr tag, qstr ns) { qdomkids k = { parent, tag, ns }; return k; }
+static inline int qdomkids_size(qdomkids k) { return k.parent == 0 ? 0 : (int)(__CPROVER_uninterpreted_dom_kids_count(k.parent, k.tag, k.ns) & 0x3fffffffu); }
+static inline qdom qdomkids_at(qdomkids k, int i) { return __CPROVER_uninterpreted_dom_kid(k.parent, k.tag, k.ns, i); }
+/* QXmppElement(const QDomElement &): a copy of the element (a function of it) */
+qsub __CPROVER_uninterpreted_sub_of_dom(qdom e);
+static inline qsub sub_of_dom(qdom e) { return __CPROVER_uninterpreted_sub_of_dom(e); }
+/* QXmppExtendedAddress::isValid(), QXmppStanza::Error::d : functions of the value */
+bool __CPROVER_uninterpreted_sub_isValid(qsub v);
+static inline bool sub_isValid(qsub v) { return __CPROVER_uninterpreted_sub_isValid(v); }
+static inline qoptsub sub_dptr(qsub v) { return v; }
